@@ -329,7 +329,7 @@ def run(ctx, out):
                 "-w 0 = one worker per CPU), runs confined to ONE usable CPU, runs in which one call fails (ENOENT/EACCES/EIO/ENOTDIR at the "
                 "n-th open / stat / listing / mkdir / symlink / readlink): whole-sandbox snapshot vs an "
                 "independent Python statement of cp's mapping rule and a frame check; the destination matrix (DestMatrix.v); operands "
-                "that are links (copied as links, never descended into, whatever they point at from their new place); --gitignore selections (git's own verdicts; sources holding a directory of their own name) mirrored entry by entry; destinations whose parent is missing, trees whose files are renamed away or whose fresh destination directory is removed by another process during the run (exit 0 still means: everything there); non-trivial = >=3 entries; distinct by case")
+                "that are links (copied as links, never descended into, whatever they point at from their new place); --gitignore selections (git's own verdicts; sources holding a directory of their own name) mirrored entry by entry; destinations whose parent is missing, trees whose files are renamed away or whose fresh destination directory is removed by another process during the run (exit 0 still means: everything there); operands ending in `..` (nothing outside the destination); non-trivial = >=3 entries; distinct by case")
     run_walker_r0(ctx, out)
     run_copies(ctx, out)
     import destmatrix
@@ -337,6 +337,47 @@ def run(ctx, out):
     run_link_operands(ctx, out)
     run_selected(ctx, out)
     run_unreachable_and_vanishing(ctx, out)
+    run_dotdot_operands(ctx, out)
+
+
+def run_dotdot_operands(ctx, out):
+    """Operands whose LAST component is `..` (dir/sub/.., .., ../..): like cp, the source goes into the destination itself —
+    never into dest/.. , which is the destination's parent: nothing is created outside the destination."""
+    rng = ctx.rng
+    d0 = ctx.work.fresh("c02dotdot")
+    k = 0
+    for driver in ("parfile", "parblock"):
+        for (cwd_rel, operand) in (("", "a/sub/.."), ("a/sub", ".."), ("a/sub/deep", "../.."), ("", "a/sub/../sub/.."), ("", "./a/sub/..")):
+            for dest_state in ("dir", "absent", "dir-T"):
+                k += 1
+                d = os.path.join(d0, "p%d" % k, "outer")
+                os.makedirs(os.path.join(d, "a", "sub", "deep"))
+                open(os.path.join(d, "a", "fa"), "wb").write(b"file in a")
+                open(os.path.join(d, "a", "sub", "fs"), "wb").write(b"file in a/sub")
+                os.symlink("fa", os.path.join(d, "a", "lnk"))
+                if dest_state != "absent":
+                    os.makedirs(os.path.join(d, "dst"))
+                cwd = os.path.join(d, cwd_rel) if cwd_rel else d
+                destarg = os.path.relpath(os.path.join(d, "dst"), cwd)
+                top = os.path.dirname(d)          # the sandbox INCLUDING the directory above `outer`: dst/../.. must stay as it is too
+                before = xcp.snapshot(os.fsencode(top))
+                argv = [ctx.bins["xcp"], "-r", "--driver", driver, "-w", str(rng.choice([1, 2, 4]))] + (["-T"] if dest_state == "dir-T" else []) + [operand, destarg]
+                r = xcp.run_plain(argv, cwd)
+                after = xcp.snapshot(os.fsencode(top))
+                out.case(("dotdot-operand", driver, cwd_rel, operand, dest_state), True)
+                out.count("operands_ending_in_dotdot")
+                rep = dict(kind="operand ending in ..", cwd=cwd_rel or ".", argv=argv[1:], exit=r.exit, stderr=r.stderr[-200:])
+                outside = [p for (p, a, b) in xcp.snap_diff(before, after, ignore=("ino", "nlink", "blocks", "atime_ns"))
+                           if not (p == b"outer/dst" or p.startswith(b"outer/dst/")) and p not in (b"", b"outer")]
+                if outside:
+                    out.violation("an operand ending in `..`: %r was created or changed OUTSIDE the destination (exit %d)" % (outside[:3], r.exit), rep)
+                elif r.exit == 0:
+                    want = {b"outer/dst/fa": "file", b"outer/dst/sub": "dir", b"outer/dst/sub/fs": "file", b"outer/dst/sub/deep": "dir", b"outer/dst/lnk": "link"}
+                    bad = [p for p, kd in want.items() if after.get(p, {}).get("kind") != kd]
+                    if bad:
+                        out.violation("an operand ending in `..` exited 0 but %r is not at the destination (cp copies such a source into the destination itself)"
+                                      % bad[:3], rep)
+                shutil.rmtree(os.path.dirname(d), ignore_errors=True)
 
 
 def run_unreachable_and_vanishing(ctx, out):
